@@ -342,6 +342,9 @@ def rule_typed_dict_fields(ctx: Ctx, repo: Repo) -> None:
                         call_hook=lambda call, fname, fval, args, kwargs, st: K("int") if (fname or "").endswith("render_annotation") else
                         (R("dict", items=()) if (fname or "").endswith("get_imports_for_annotation") else None))
         ri.construct_instances = False
+        for um in ("monkeytype.util", "monkeytype.compat"):  # helpers of the stub module that live in the utility modules
+            if um in repo.modules:
+                ri.inline |= {f.fq for f in repo.modules[um].functions.values() if f.cls is None}
         outs = ri.run({"self": R("inst", name=K(key), typ=S("builtin:int"), __cls__=K(attr_render.cls.fq)), "prefix": K("    ")})
         if len(outs) != 1 or outs[0].term is None or outs[0].term[0] != "return" or not isinstance(outs[0].term[1], K):
             raise AnalysisError("AttributeStub.render: the rendered line is not a foldable string")
